@@ -4,11 +4,44 @@ builder: extra proof modules (obligations) and extra sentences for the MANIFEST 
 that a new version of harness/props/Cxx.py can be dropped in without losing them.
 """
 EXTRA_TARGETS = {
+    'C01': ['XdocModel.Proofs.Compose'],
+    'C08': ['XdocModel.Proofs.Compose'],
     'C13': ['XdocModel.Proofs.C13Labels'],
-    'C18': ['XdocModel.Proofs.C18Labels'],
+    'C18': ['XdocModel.Proofs.C18Labels', 'XdocModel.Proofs.Compose'],
 }
 
+# cross-cluster compositions (Proofs/Compose.lean): audited together with the property they complete
+EXTRA_THEOREMS = {
+    'C01': [('Xdoc.Compose.chunk_partition_agree', 'full'), ('Xdoc.Compose.parse_exec_lines_are_program', 'full'),
+            ('Xdoc.Compose.parse_run_eq_program', 'full')],
+    'C08': [('Xdoc.Compose.parse_tiled', 'full'), ('Xdoc.Compose.parse_then_lineno', 'full'),
+            ('Xdoc.Compose.parse_then_file_line', 'full'), ('Xdoc.Compose.parse_part_line', 'full'),
+            ('Xdoc.Compose.tiled_needs_facts_in_range', 'witness'), ('Xdoc.Compose.lineno_counts_splitlines_witness', 'witness')],
+    'C18': [('Xdoc.Compose.parsed_parts_plain', 'full'), ('Xdoc.Compose.parsed_parts_clean', 'partial'),
+            ('Xdoc.Compose.reparse_labels_of_parse', 'partial')],
+}
+
+
+def _replay_K_C08_c(ctx, finding):
+    # a line-break character other than \n before the prompt: the parser counts splitlines() lines, the file counts \n
+    from xdoctest import core
+    exs = list(core.parse_docstr_examples("a\x0cb\n>>> f()", callname='t', style='freeform', lineno=10))
+    return bool(exs) and exs[0].lineno == 12       # the prompt is on docstring line 2, i.e. file line 11
+
+
+EXTRA_FINDING_REPLAYS = {'K-C08-c': _replay_K_C08_c}
+
 EXTRA_TEXT = {
+    'C01': (" ADDED (Proofs/Compose.lean, cross-cluster): `parse_exec_lines_are_program` (for every successfully parsed docstring the exec_lines of all parts, "
+            "concatenated in order, are the de-prompted source lines of all chunks in order) and `parse_run_eq_program` (running the parts produced by the parser "
+            "model, no skip and no failure, is the left fold of `sem` over them in source order, every part exactly once) — C13's tiling composed with C01's "
+            "run-loop theorem; `chunk_partition_agree` shows the C01 and C13 forms of the chunk partition coincide."),
+    'C08': (" ADDED (Proofs/Compose.lean, cross-cluster): the hypothesis `Tiled` is DISCHARGED — `parse_tiled`: for every docstring and every oracle answer with "
+            "statement starts in range (`FactsOk`, necessary: `tiled_needs_facts_in_range`) the pieces of the parser model tile the docstring, hence "
+            "`parse_then_lineno` / `parse_then_file_line` (the freeform line-number theorems with no tiling hypothesis) and `parse_part_line` (the line at a part's "
+            "offset is that part's first line, no hypothesis at all). New finding K-C08-c from this composition: the parser counts `splitlines()` lines while the "
+            "file counts newlines, so a form feed / vertical tab / \\x1c-\\x1e / \\x85 / U+2028/9 / bare \\r before a prompt shifts every reported line "
+            "(`lineno_counts_splitlines_witness`, reproduced on the real code in every run)."),
     'C13': (" ADDED (Proofs/C13Labels.lean): the stretch theorem is proved for the full grammar, for every block list, by induction with an "
             "invariant on the labeller state: `labels_are_intended` — for every docstring rendered from labelled blocks (prose, blank lines, example "
             "blocks at any indentation whose statements are lists of lines in either prompt style with the oracle condition 'balanced as a whole, no strict "
@@ -22,5 +55,6 @@ EXTRA_TEXT = {
             "parse's labeller sees are exactly the orig and want lines of the parts) and `reparse_labels` (if those lines are a rendering of the C13 grammar, the "
             "second parse labels every line as intended — by `C13.labels_are_intended_general`); what is still missing for the full `ReparseSame` is that the "
             "lines of a parsed doctest are always in the grammar (not true as it stands because of the triple-quote hack) and the grouping/packaging of the "
-            "second parse: observed with the real parser on every generated case."),
+            "second parse: observed with the real parser on every generated case. `Compose.parsed_parts_plain` / `reparse_labels_of_parse` turn the cleanliness "
+            "hypotheses (no line break, no tab inside a line) into theorems about the FIRST parse."),
 }
